@@ -9,9 +9,10 @@
    State: authenticated = keys of ProxyAuth.authenticated (client connections authenticated by CONNECT / SOCKS5);
           conn[c] = [path, st]: st "none" | "socks" (before the SOCKS5 handshake) | "http" | "tunnel" | "closed".
    AcceptTab = {<<validator, credential class>>} the validator accepts (computed by calling the real validators).
-   ColonSplit = TRUE names a deviation of the code: parse_http_basic_auth splits the decoded value at EVERY ':' and
-   fails for a password containing ':', so on the HTTP paths such a pair is refused although the validator accepts it
-   (the SOCKS5 path passes the pair unparsed).  With ColonSplit = FALSE the model is the repaired code.
+   ColonSplit names a former deviation of the code: parse_http_basic_auth split the decoded value at EVERY ':' and
+   failed for a password containing ':', so on the HTTP paths such a pair was refused although the validator accepts
+   it (the SOCKS5 path passes the pair unparsed).  Repaired in /repo commit 343c71fb1 (split(":", 1)); the check runs
+   with ColonSplit = FALSE (the repaired code); TRUE reproduces the old behaviour (mutants/C20/M7).
    Requests are atomic: the harness sends one request and drives it to completion before the next.          *)
 EXTENDS Mon_ProxyAuth, TLC
 CONSTANTS Validators, Paths, Paths2, HttpCreds, HttpCreds2, SocksCreds, AcceptTab, MaxReq, NConn, ColonSplit
